@@ -1,0 +1,127 @@
+//go:build verif
+// +build verif
+
+package gofakes3
+
+// State tracing of the built-in multipart uploader for trace validation
+// (build tag "verif" only; see also backend/s3mem/verif_trace.go).
+//
+// Every mutating uploader method calls traceUploads while it still holds
+// u.mu, after the change: one NDJSON event with the operation, its arguments
+// and the resulting state of the uploads on that (bucket, key) -- in the
+// order of the uploader's own per-key list, each with its parts (number, MD5
+// of the stored body, stored ETag, size) -- plus the ids of all uploads of the
+// bucket. Events go to $VERIF_UPLOADER_TRACE/<pid>.ndjson; nothing happens
+// when the variable is unset.
+
+import (
+	"bufio"
+	"crypto/md5"
+	"encoding/hex"
+	"encoding/json"
+	"fmt"
+	"os"
+	"path/filepath"
+	"sort"
+	"strings"
+	"sync"
+)
+
+var verifUp struct {
+	mu    sync.Mutex
+	once  sync.Once
+	w     *bufio.Writer
+	insts map[*uploader]int
+	seq   map[*uploader]int
+}
+
+type verifPart struct {
+	N    int    `json:"n"`
+	MD5  string `json:"md5"`
+	ETag string `json:"etag"`
+	Size int    `json:"size"`
+}
+
+type verifUpload struct {
+	UID   string      `json:"uid"`
+	Parts []verifPart `json:"parts"`
+}
+
+type verifListed struct {
+	N    int    `json:"n"`
+	ETag string `json:"etag"`
+}
+
+type verifUpEvent struct {
+	Inst   int           `json:"i"`
+	Seq    int           `json:"n"`
+	Op     string        `json:"op"`
+	Bucket string        `json:"b"`
+	Key    []int         `json:"k"`
+	UID    string        `json:"uid"`
+	Part   int           `json:"part"`
+	List   []verifListed `json:"list"`
+	Ups    []verifUpload `json:"ups"` // the uploads on (b, k), in the order of the per-key index
+	All    []string      `json:"all"` // ids of all uploads of the bucket
+}
+
+func verifUpOpen() {
+	dir := os.Getenv("VERIF_UPLOADER_TRACE")
+	if dir == "" {
+		return
+	}
+	f, err := os.OpenFile(filepath.Join(dir, fmt.Sprintf("%d.ndjson", os.Getpid())), os.O_CREATE|os.O_WRONLY|os.O_APPEND, 0644)
+	if err != nil {
+		return
+	}
+	verifUp.w = bufio.NewWriter(f)
+	verifUp.insts = map[*uploader]int{}
+	verifUp.seq = map[*uploader]int{}
+}
+
+// (u.mu is held by the caller)
+func (u *uploader) traceUploads(op, bucket, object, id string, partNumber int, input *CompleteMultipartUploadRequest) {
+	verifUp.once.Do(verifUpOpen)
+	if verifUp.w == nil {
+		return
+	}
+	ev := verifUpEvent{Op: op, Bucket: bucket, UID: id, Part: partNumber, Key: []int{}, List: []verifListed{}, Ups: []verifUpload{}, All: []string{}}
+	for i := 0; i < len(object); i++ {
+		ev.Key = append(ev.Key, int(object[i]))
+	}
+	if input != nil {
+		for _, p := range input.Parts {
+			ev.List = append(ev.List, verifListed{N: p.PartNumber, ETag: strings.Trim(p.ETag, `"`)})
+		}
+	}
+	if bu := u.buckets[bucket]; bu != nil {
+		for uid := range bu.uploads {
+			ev.All = append(ev.All, string(uid))
+		}
+		sort.Strings(ev.All)
+		if v, ok := bu.objectIndex.Get(object); ok && v != nil {
+			for _, mpu := range v.([]*multipartUpload) {
+				vu := verifUpload{UID: string(mpu.ID), Parts: []verifPart{}}
+				for n, p := range mpu.parts {
+					if p == nil {
+						continue
+					}
+					sum := md5.Sum(p.Body)
+					vu.Parts = append(vu.Parts, verifPart{N: n, MD5: hex.EncodeToString(sum[:]), ETag: strings.Trim(p.ETag, `"`), Size: len(p.Body)})
+				}
+				ev.Ups = append(ev.Ups, vu)
+			}
+		}
+	}
+	verifUp.mu.Lock()
+	defer verifUp.mu.Unlock()
+	if _, ok := verifUp.insts[u]; !ok {
+		verifUp.insts[u] = len(verifUp.insts) + 1
+	}
+	verifUp.seq[u]++
+	ev.Inst, ev.Seq = verifUp.insts[u], verifUp.seq[u]
+	line, _ := json.Marshal(ev)
+	verifUp.w.Write(line)
+	verifUp.w.WriteByte('\n')
+	verifUp.w.Flush()
+}
